@@ -476,8 +476,10 @@ pub fn run(tier: &str, seed: u64, replay: Option<String>) -> i32 {
             if i == j {
                 continue;
             }
+            // thorough: every ordered pair of variants of the same base + a seeded tenth of the
+            // cross-base pairs (all 7*10^4 pairs cost about two hours of fresh processes)
             let same_base = a["base"] == b["base"];
-            if thorough || (same_base && rng.chance(1, 3)) {
+            if (thorough && (same_base || rng.chance(1, 10))) || (same_base && rng.chance(1, 3)) {
                 cases.push(Case {
                     mode: "history",
                     job: json!({"t":"proc","threads":[[a, b]],"sched":{"strategy":"rr","q":1000000},"sched_seed":0}),
